@@ -30,8 +30,25 @@ impl From<&Path> for PathBuf { #[verifier::external_body] fn from(p: &Path) -> P
 pub open spec fn valid_dirfd(id: int) -> bool { raw_of(id) == libc::AT_FDCWD as int || raw_of(id) >= 0 }
 pub open spec fn stat_flags_ok(f: AtFlags) -> bool { f.bits == 0x800u32 | 0x100u32 | 0x1000u32 }
 
+/// R8: `PathBuf::from(OsStr::from_bytes(b))`
+#[verifier::external_body]
+pub fn pathbuf_from_bytes(b: &[u8]) -> (r: PathBuf) ensures r@ == b@ { unimplemented!() }
 pub mod rustix_fs {
     use super::*;
+    /// R12: the `[MaybeUninit<u8>; N]` scratch buffer handed to readlinkat_raw (only its capacity matters)
+    pub struct LinkBuf { pub cap: usize }
+    impl LinkBuf { pub fn uninit(n: usize) -> (r: LinkBuf) ensures r.cap == n { LinkBuf { cap: n } } }
+    /// rustix readlinkat_raw: (initialised prefix = what the kernel wrote, uninitialised rest).  readlinkat(2)
+    /// truncates silently, so the body is known to be complete only if the buffer was not filled (A7).
+    #[verifier::external_body]
+    pub fn readlinkat_raw<'a, Fd: AsFd, P: AsRefPath>(dirfd: Fd, path: P, buf: &'a mut LinkBuf) -> (r: Result<(&'a [u8], &'a [u8]), Errno>)
+        requires
+            valid_dirfd(dirfd.fd_id()),                                   // [C05+C10.rustix_readlinkat.valid_dirfd]
+            path.pview().len() == 0,                                      // [C01+C02+C05+C06+C07.rustix_readlinkat.empty_path_reads_the_fd_itself]
+        ensures
+            r matches Ok((t, rest)) ==> t@.len() + rest@.len() == old(buf).cap && no_nul(t@)
+                && (rest@.len() > 0 ==> link_body_of(dirfd.fd_id(), t@)),
+    { unimplemented!() }
     pub fn major(dev: Dev) -> u32 { 0 }
     pub fn minor(dev: Dev) -> u32 { 0 }
     #[verifier::external_body]
